@@ -33,6 +33,7 @@ type Renderer struct {
 	inlineDepth int
 	loadActive  map[*ssa.Alloc]bool
 	allocActive map[*ssa.Alloc]bool
+	ptrCalls    map[*ssa.Alloc][]ptrCall
 	// cur: the instruction whose operands are being rendered (the use site of a φ operand)
 	cur       ssa.Instruction
 	live      map[*ssa.BasicBlock]bool
@@ -84,9 +85,136 @@ func (p *Prog) newRenderer(fn *ssa.Function, bind []string) *Renderer {
 					}
 				}
 			}
+			// the address of a local record (or of a part of it) handed to a callee: the callee may assign its fields
+			if ci, ok := in.(ssa.CallInstruction); ok {
+				for i, a := range ci.Common().Args {
+					if _, isPtr := a.Type().Underlying().(*types.Pointer); !isPtr {
+						continue
+					}
+					if _, isAddr := a.(*ssa.UnOp); isAddr {
+						continue // a loaded pointer, not the address of the record
+					}
+					if al, path := rootAlloc(a); al != nil {
+						if r.ptrCalls == nil {
+							r.ptrCalls = map[*ssa.Alloc][]ptrCall{}
+						}
+						r.ptrCalls[al] = append(r.ptrCalls[al], ptrCall{ci, i, path})
+					}
+				}
+			}
 		}
 	}
 	return r
+}
+
+// ptrCall: call hands the address of alloc<prefix> to its callee as argument arg.
+type ptrCall struct {
+	call   ssa.CallInstruction
+	arg    int
+	prefix string
+}
+
+// rootParam follows FieldAddr chains to a parameter of the function and returns the field path.
+func rootParam(addr ssa.Value) (*ssa.Parameter, string) {
+	path := ""
+	for {
+		switch a := addr.(type) {
+		case *ssa.Parameter:
+			return a, path
+		case *ssa.FieldAddr:
+			path = "." + fieldName(a.X.Type(), a.Field) + path
+			addr = a.X
+		default:
+			return nil, ""
+		}
+	}
+}
+
+type ptrWrite struct {
+	rel string    // field path below the pointer
+	val ssa.Value // the stored value (nil: unknown, written by a deeper callee or a whole-record store)
+	by  *ssa.Function
+}
+
+// ptrParamWrites: the fields a repository function assigns through its pointer parameter k (itself or, two levels
+// deep, through functions it passes the pointer on to).
+func (p *Prog) ptrParamWrites(g *ssa.Function, k int, depth int) []ptrWrite {
+	if g == nil || g.Blocks == nil || k >= len(g.Params) || depth > 2 {
+		return nil
+	}
+	key := fmt.Sprintf("%p/%d", g, k)
+	if p.ptrWritesMemo == nil {
+		p.ptrWritesMemo = map[string][]ptrWrite{}
+	}
+	if w, ok := p.ptrWritesMemo[key]; ok {
+		return w
+	}
+	p.ptrWritesMemo[key] = nil
+	var out []ptrWrite
+	for _, b := range g.Blocks {
+		for _, in := range b.Instrs {
+			switch x := in.(type) {
+			case *ssa.Store:
+				if pr, rel := rootParam(x.Addr); pr == g.Params[k] {
+					out = append(out, ptrWrite{rel, x.Val, g})
+				}
+			case ssa.CallInstruction:
+				for i, a := range x.Common().Args {
+					if _, isPtr := a.Type().Underlying().(*types.Pointer); !isPtr {
+						continue
+					}
+					pr, rel := rootParam(a)
+					if pr != g.Params[k] {
+						continue
+					}
+					h := x.Common().StaticCallee()
+					if h == nil || h.Blocks == nil {
+						out = append(out, ptrWrite{rel, nil, g})
+						continue
+					}
+					for _, w := range p.ptrParamWrites(h, i, depth+1) {
+						out = append(out, ptrWrite{rel + w.rel, nil, w.by})
+					}
+				}
+			}
+		}
+	}
+	p.ptrWritesMemo[key] = out
+	return out
+}
+
+// ptrCallAlts: what the callees that were handed the address of a<…> may have left in field `path` by the time
+// instruction `at` runs.
+func (r *Renderer) ptrCallAlts(a *ssa.Alloc, path string, at ssa.Instruction) []string {
+	var alts []string
+	for _, pc := range r.ptrCalls[a] {
+		if !strings.HasPrefix(path, pc.prefix) || pc.call == at || !r.instrReaches(pc.call, at) {
+			continue
+		}
+		rel := strings.TrimPrefix(path, pc.prefix)
+		if rel != "" && !strings.HasPrefix(rel, ".") {
+			continue
+		}
+		g := pc.call.Common().StaticCallee()
+		if g == nil || g.Blocks == nil {
+			// an unknown callee is assumed to fill records of the repository's own types only through decoders
+			// (Unmarshal and the like): those are whole-record loads, seen as calls by the rules
+			continue
+		}
+		for _, w := range r.p.ptrParamWrites(g, pc.arg, 0) {
+			switch {
+			case w.rel == rel:
+				if c, ok := w.val.(*ssa.Const); ok {
+					alts = append(alts, r.E(c))
+				} else {
+					alts = append(alts, "assigned-by("+FuncKey(w.by)+")")
+				}
+			case w.rel == "" || strings.HasPrefix(rel, w.rel+".") || strings.HasPrefix(w.rel, rel+"."):
+				alts = append(alts, "assigned-by("+FuncKey(w.by)+")")
+			}
+		}
+	}
+	return dedupe(alts)
 }
 
 // prescan assigns call ordinals in instruction order (deterministic).
@@ -855,11 +983,12 @@ func (r *Renderer) fieldAt(a *ssa.Alloc, path string, at ssa.Instruction, origin
 			origin = r.E(w.Val) + path
 		}
 	}
-	if len(cands) == 0 && !r.hasStructCopy(live) {
+	pcAlts := r.ptrCallAlts(a, path, at)
+	if len(cands) == 0 && !r.hasStructCopy(live) && len(pcAlts) == 0 {
 		return origin
 	}
 	originLive := len(live) > 0
-	if len(cands) == 1 && !originLive {
+	if len(cands) == 1 && !originLive && len(pcAlts) == 0 {
 		return r.E(cands[0].Val)
 	}
 	var alts []string
@@ -885,6 +1014,10 @@ func (r *Renderer) fieldAt(a *ssa.Alloc, path string, at ssa.Instruction, origin
 	for _, s := range cands {
 		alts = append(alts, r.E(s.Val))
 	}
+	if len(pcAlts) > 0 && len(alts) == 0 {
+		alts = append(alts, origin)
+	}
+	alts = append(alts, pcAlts...)
 	alts = dedupe(alts)
 	if len(alts) == 1 {
 		return alts[0]
